@@ -269,7 +269,16 @@ var ruleGlobals = &Rule{
 					}
 					if w.Kind == "append" && o.Loads > 0 {
 						// append(global, …) only reads the global unless the
-						// result is stored back, which is a separate store.
+						// result is stored back (a separate store) — as long as
+						// the slice is full: with spare capacity the new
+						// elements are written into the backing array every
+						// caller shares (`var start = append(make([]byte, 0, 6), '(', '?')`)
+						if o.Loads == 1 && !p.globalSliceIsFull(g) {
+							key := fmt.Sprintf("%s appends to global %s", fnName(fn), g.Name())
+							out.viol(key, p.pos(w.Instr.Pos()), fnName(fn),
+								"the package-level slice "+g.Name()+" is not known to be full (its initial value is not a literal or a constant conversion): append writes the new elements into its shared backing array, so concurrent calls overwrite each other's",
+								reach.path(p, fn)...)
+						}
 						continue
 					}
 					key := fmt.Sprintf("%s writes global %s (%s)", fnName(fn), g.Name(), w.Kind)
@@ -329,6 +338,45 @@ var ruleGlobals = &Rule{
 		out.Floors["writes_examined"] = 50
 		return out
 	},
+}
+
+// globalSliceIsFull: the package-level slice g is set once, by its package's
+// initialiser, to a value whose length is its capacity: a composite literal,
+// a conversion of a constant string, nil.
+func (p *Prog) globalSliceIsFull(g *ssa.Global) bool {
+	var stores []*ssa.Store
+	for fn := range p.AllFns {
+		if !inModule(fn) {
+			continue
+		}
+		for _, b := range fn.Blocks {
+			for _, ins := range b.Instrs {
+				if st, ok := ins.(*ssa.Store); ok && st.Addr == ssa.Value(g) {
+					stores = append(stores, st)
+				}
+			}
+		}
+	}
+	if len(stores) == 0 {
+		return true // zero value: nil
+	}
+	if len(stores) != 1 || !isInit(stores[0].Parent()) {
+		return false
+	}
+	switch v := stores[0].Val.(type) {
+	case *ssa.Const:
+		return true
+	case *ssa.Slice:
+		// `[]T{…}`: the whole of a fresh array
+		if _, ok := v.X.(*ssa.Alloc); ok && v.Low == nil && v.High == nil && v.Max == nil {
+			return true
+		}
+	case *ssa.Convert:
+		if _, ok := v.X.(*ssa.Const); ok {
+			return true // []byte("const")
+		}
+	}
+	return false
 }
 
 // globalStorage: v is a slice of, or a pointer into, the memory of a
